@@ -10,8 +10,12 @@ hc = os.path.join(ROOT, "tools", "hook_commits.txt")
 if os.path.exists(hc):
     hooks_commits = [l.strip() for l in open(hc) if l.strip()]
 checks = []
+def has_thm(pid):
+    return os.path.exists(os.path.join(ROOT, "lean", "BasicModel", "Thm", pid + ".lean"))
+
+
 for pid in ids:
-    if pid not in props.PROPS:
+    if pid not in props.PROPS or not has_thm(pid):
         continue
     P = props.PROPS[pid]
     checks.append({
@@ -30,7 +34,7 @@ for pid in ids:
         "technique": P.get("technique", "Lean 4 theorems over a hand-written model + differential correspondence model vs implementation + spec-vs-implementation finder"),
     })
 na = [{"property_id": pid, "reason": props.NOT_YET.get(pid, "check not built yet (machinery under construction)")}
-      for pid in ids if pid not in props.PROPS]
+      for pid in ids if pid not in props.PROPS or not has_thm(pid)]
 m = {
     "version": 1,
     "setup_cmd": "./check --setup",
